@@ -512,7 +512,13 @@ class Analyzer3:
                         st.nz[key] = slack
                         st.back.pop(key, None)
                         return
-                    if record and key in self.tracked:
+                    unit_calls = [callee_name(c) for c in walk(a['r']) if c.get('k') == 'call' and callee_name(c) in self.u.functions]
+                    if record and key in self.tracked and unit_calls:
+                        # the amount is what a function of this unit returned: how that number relates to the text at the cursor is
+                        # a fact about two functions (here is the measuring, there the matching) that this engine does not derive
+                        self.broken = self.broken or 'BND3: %s: %s is advanced by the result of %s; what that function returns ' \
+                            'is not related to the text at the cursor by this analysis' % (self.fn.where(a), key, unit_calls[0])
+                    elif record and key in self.tracked:
                         self.site('BND3', a, 'advance of %s by a computed amount' % key, False,
                                   'cannot show the cursor stays inside the string', 'adv:%s:var' % key)
                     st.nz.pop(key, None)
